@@ -30,6 +30,7 @@ func init() {
 		Rule{ID: "R11b", Doc: "the trie's insert and lookup agree on walk direction and on the short/long label threshold (shared with C11)", Floor: 8, AllVariants: true, Run: r11b},
 		Rule{ID: "R20b", Doc: "the forwarded question is not recycled under the refresh goroutine (shared with C20)", Floor: 20, Run: r20b},
 		Rule{ID: "R20e", Doc: "a decoded name has one owner (a double release lets two in-flight questions share one buffer; shared with C20)", Floor: 1, AllVariants: true, Run: r20e},
+		Rule{ID: "R10f", Doc: "lookup methods of the shared domain/ip structures are read-only on the request path", Floor: 5, Run: r10f},
 	)
 	reg("C17", "Structural necessary conditions of `peers are reached and authenticated as configured`, decided for all paths: "+
 		"(R17a) every field of TlsConfig and UpstreamConfig is read and reaches its effect (InsecureSkipVerify, RootCAs, Certificates, ClientAuth+ClientCAs for verify_client_cert; dial_addr, addr, tls, socket, tag); "+
@@ -45,6 +46,7 @@ func init() {
 		Rule{ID: "R17e", Doc: "delimiter-strip bounds", Floor: 1, AllVariants: true, Run: r17e},
 		Rule{ID: "R17f", Doc: "default ports and dial plumbing", Floor: 12, AllVariants: true, Run: r17f},
 		Rule{ID: "R17g", Doc: "options are wired from the same-named configuration fields (module-wide)", Floor: 5, Run: rWiring()},
+		Rule{ID: "R17h", Doc: "a configured CA replaces the trust store", Floor: 1, Run: r17h},
 	)
 }
 
